@@ -25,6 +25,7 @@ func init() {
 	vh.Register("c02", "replay-names", replayNames)
 	vh.Register("c02", "record", record)
 	vh.Register("c02", "one", one)
+	vh.Register("c02", "stress", stress)
 }
 
 func q(s string) string {
@@ -60,6 +61,20 @@ var pairs = []pair{
 	}},
 }
 
+// twin calls only the function under test of equivalence i.
+func twin(i int, s string) bool {
+	switch i {
+	case pIP:
+		return netutil.IsValidIPString(s)
+	case pIPPort:
+		return netutil.IsValidIPPortString(s)
+	case pHost:
+		return netutil.IsValidHostname(s)
+	default:
+		return netutil.IsValidHostnameLabel(s)
+	}
+}
+
 const (
 	pIP = iota
 	pIPPort
@@ -69,10 +84,16 @@ const (
 
 // try evaluates one equivalence on s.
 func try(i int, s string) (got, want bool, what string) {
-	pv, panicked := vh.Try(func() { got, want = pairs[i].f(s) })
+	again := false
+	pv, panicked := vh.Try(func() {
+		got, want = pairs[i].f(s)
+		again = twin(i, s) // the same call once more: the verdict is a function of the argument
+	})
 	switch {
 	case panicked:
 		return got, want, fmt.Sprintf("panic: %v", pv)
+	case got == want && again != want:
+		return again, want, fmt.Sprintf("%s returned %v on the first call and %v on the second; %s says %v", pairs[i].name, got, again, pairs[i].ref, want)
 	case got != want:
 		return got, want, fmt.Sprintf("%s returned %v but %s says %v", pairs[i].name, got, pairs[i].ref, want)
 	}
@@ -170,6 +191,7 @@ func replayChars(args []string) error {
 	}
 	c := &checker{res: res, stage: "G characters"}
 	ws := workers(200)
+	acc, rej := newReservoirs(len(ws)), newReservoirs(len(ws))
 	var nvec, nconc, nvalid atomic.Int64
 	err = c03.ParallelLines(args[0], len(ws), func(w int, raw []byte) error {
 		var v charVec
@@ -200,6 +222,11 @@ func replayChars(args []string) error {
 			nconc.Add(1)
 			c.check(pIP, s, canon, &v.A, v)
 			c.check(pIPPort, s, canon, &v.P, v)
+			if v.A || v.P {
+				acc[w].add(s, ws[w].rng)
+			} else {
+				rej[w].add(s, ws[w].rng)
+			}
 		}
 		return nil
 	})
@@ -209,8 +236,11 @@ func replayChars(args []string) error {
 	if e := c.err(); e != nil {
 		return e
 	}
+	c.stage = "G history"
+	hist := append(gather(acc), gather(rej)...)
+	c.historyIP(hist, vh.Rand(201))
 	return res.Close(map[string]any{"vectors": nvec.Load(), "concretisations": nconc.Load(), "evaluations": c.evals.Load(),
-		"distinct_nontrivial": distinct(ws), "accepted_by_grammar": nvalid.Load()})
+		"distinct_nontrivial": distinct(ws), "accepted_by_grammar": nvalid.Load(), "history_inputs": len(hist)})
 }
 
 // ----------------------------------------------------------------- tokens
@@ -233,6 +263,7 @@ func replayToks(args []string) error {
 	}
 	c := &checker{res: res, stage: "G tokens"}
 	ws := workers(230)
+	acc, rej := newReservoirs(len(ws)), newReservoirs(len(ws))
 	var nvec, nconc, nvalid atomic.Int64
 	err = c03.ParallelLines(args[0], len(ws), func(w int, raw []byte) error {
 		var v tokVec
@@ -285,6 +316,11 @@ func replayToks(args []string) error {
 			bad := InvalidPort(rng)
 			no := false
 			c.check(pIPPort, "["+s+"]:"+bad, "["+canon+"]:65536", &no, v)
+			if v.A || v.P {
+				acc[w].add(s, rng)
+			} else {
+				rej[w].add(s, rng)
+			}
 		}
 		return nil
 	})
@@ -294,8 +330,11 @@ func replayToks(args []string) error {
 	if e := c.err(); e != nil {
 		return e
 	}
+	c.stage = "G history"
+	hist := append(gather(acc), gather(rej)...)
+	c.historyIP(hist, vh.Rand(231))
 	return res.Close(map[string]any{"vectors": nvec.Load(), "concretisations": nconc.Load(), "evaluations": c.evals.Load(),
-		"distinct_nontrivial": distinct(ws), "accepted_by_grammar": nvalid.Load()})
+		"distinct_nontrivial": distinct(ws), "accepted_by_grammar": nvalid.Load(), "history_inputs": len(hist)})
 }
 
 // ------------------------------------------------------------------ names
@@ -314,6 +353,7 @@ func replayNames(args []string) error {
 	}
 	c := &checker{res: res, stage: "G names"}
 	ws := workers(260)
+	acc, rej := newReservoirs(len(ws)), newReservoirs(len(ws))
 	var nvec, nconc, nvalid, specDiff atomic.Int64
 	err = c03.ParallelLines(args[0], len(ws), func(w int, raw []byte) error {
 		var v c03.Vector
@@ -361,14 +401,22 @@ func replayNames(args []string) error {
 			if ascii && !strings.Contains(s, "xn--") && (wantHost != v.Host || wantLabel != v.Label) {
 				specDiff.Add(1)
 			}
+			if wantHost || wantLabel {
+				acc[w].add(s, rng)
+			} else {
+				rej[w].add(s, rng)
+			}
 		}
 		return nil
 	})
 	if err != nil {
 		return err
 	}
+	c.stage = "G history"
+	hist := append(gather(acc), gather(rej)...)
+	c.historyNames(hist, vh.Rand(261))
 	return res.Close(map[string]any{"vectors": nvec.Load(), "concretisations": nconc.Load(), "evaluations": c.evals.Load(),
-		"distinct_nontrivial": distinct(ws), "accepted_by_grammar": nvalid.Load(), "validate_vs_grammar_differences": specDiff.Load()})
+		"distinct_nontrivial": distinct(ws), "accepted_by_grammar": nvalid.Load(), "validate_vs_grammar_differences": specDiff.Load(), "history_inputs": len(hist)})
 }
 
 // one re-executes a single input on all four equivalences (--replay).
